@@ -49,6 +49,9 @@ void abtv_atomic_end(void);
 /* hold the caller back at one of its next `maxhooks` hooked operations for `steps` steps */
 void abtv_stall_within(int maxhooks, int steps);
 
+/* hold back (for `steps` steps, with probability permille/1000) any other actor that is about to load *addr */
+void abtv_watch_load(const void *addr, int steps, int permille);
+
 /* a scheduling point requested by the driver (e.g. inside work-unit bodies) */
 void abtv_point(void);
 /* mark the calling actor as not progressing (driver-level polling loop) */
